@@ -1,5 +1,6 @@
 import CifModel.Lemmas.StoreRefineW
 import CifModel.Spec.StoreSpec
+import CifModel.Lemmas.StoreTree
 /-
   Lemmas/StoreSpecRefine — the model's calls commute with `absS` (Spec/StoreSpec) and return the code the documented model gives,
   for a `Good` store and a valid handle.
@@ -465,6 +466,521 @@ theorem prune_spec (s : Store) (h : CH) (hg : Good s.db) :
   rw [hl]
   rfl
 
+/-- cif_create_block outside any transaction commutes with `absS` and returns the documented model's code -/
+theorem createBlock_spec (s : Store) (n : Option Name) (hg : Good s.db) (hac : s.autocommit = true) :
+    absS (createBlock s n).1.db = (specCreateBlock (absS s.db) n).1 ∧ (createBlock s n).2 = (specCreateBlock (absS s.db) n).2 := by
+  have hfresh := hg.inv.idFresh
+  unfold createBlock specCreateBlock
+  cases n with
+  | none => exact ⟨rfl, rfl⟩
+  | some nm =>
+    simp only []
+    cases hv : nm.valid with
+    | false => simp
+    | true =>
+      have hb : s.begin = some { s with txn := some s.db } := by unfold Store.begin; simp [hac]
+      have hbl : (absS s.db).blocks = s.db.blocks := rfl
+      simp only [Bool.not_true, Bool.not_false, Bool.true_and, Bool.false_eq_true, if_false, hb, hbl]
+      cases hdup : s.db.blocks.any (fun b => b.name == nm.key) with
+      | true =>
+        have : s.db.insertContainer.1.insertBlock s.db.insertContainer.2 nm.key nm.orig = none := by
+          have hd : s.db.insertContainer.1.blocks = s.db.blocks := rfl
+          unfold Db.insertBlock
+          rw [hd]
+          split
+          · rfl
+          · simp [hdup]
+        simp only [this, if_true]
+        refine ⟨?_, by first | rfl | trivial⟩
+        rw [begin_rollback' s _ hb]
+      | false =>
+        have hpk : s.db.blocks.any (fun b => b.cid == s.db.nextId) = false := by
+          rw [Bool.eq_false_iff]
+          intro h
+          obtain ⟨b, hbm, hbe⟩ := List.any_eq_true.mp h
+          exact hfresh.2.2 b hbm (by simpa using hbe)
+        have hins : s.db.insertContainer.1.insertBlock s.db.insertContainer.2 nm.key nm.orig =
+            some { s.db.insertContainer.1 with blocks := s.db.blocks ++ [{ cid := s.db.nextId, name := nm.key, nameOrig := nm.orig }] } := by
+          unfold Db.insertBlock Db.insertContainer
+          simp [hpk, hdup, Db.hasContainer]
+        simp only [hins, Bool.false_eq_true, if_false]
+        refine ⟨?_, by first | rfl | trivial⟩
+        simp only [Store.commit, Store.autocommit, Option.isNone_some, Bool.false_and, Bool.false_eq_true, if_false, Option.getD]
+        rfl
+
+/-- cif_container_create_frame on an existing container, outside any transaction -/
+theorem createFrame_spec (s : Store) (hd : CH) (n : Option Name) (hg : Good s.db) (hac : s.autocommit = true) (hv : hd.validB s.db = true) :
+    absS (createFrame s hd n).1.db = (specCreateFrameH (absS s.db) hd n).1 ∧ (createFrame s hd n).2 = (specCreateFrameH (absS s.db) hd n).2 := by
+  have h := hg.inv
+  have hhd : s.db.hasContainer hd.id = true := hv
+  have hlt : hd.id < s.db.nextId := by
+    obtain ⟨r, hr, hre⟩ := (hasContainer_iff _ _).mp hhd
+    rw [← hre]; exact h.ext.idsBelow r hr
+  unfold createFrame specCreateFrameH
+  cases n with
+  | none => exact ⟨rfl, rfl⟩
+  | some nm =>
+    simp only []
+    cases hvn : nm.valid with
+    | false => simp
+    | true =>
+      have hb : s.begin = some { s with txn := some s.db } := by unfold Store.begin; simp [hac]
+      have hfr : (absS s.db).frames = s.db.frames := rfl
+      simp only [Bool.not_true, Bool.not_false, Bool.true_and, Bool.false_eq_true, if_false, hb, hfr]
+      have hcidfree : s.db.frames.any (fun f => f.cid == s.db.nextId) = false := by
+        rw [Bool.eq_false_iff]
+        intro ha
+        obtain ⟨f, hfm, hfe⟩ := List.any_eq_true.mp ha
+        obtain ⟨r, hr, hre⟩ := (hasContainer_iff _ _).mp (h.tree.frameFK f hfm).1
+        have := h.ext.idsBelow r hr
+        have : f.cid = s.db.nextId := by simpa using hfe
+        omega
+      cases hdup : s.db.frames.any (fun f => f.parent == hd.id && f.name == nm.key) with
+      | true =>
+        have : s.db.insertContainer.1.insertFrame s.db.insertContainer.2 hd.id nm.key nm.orig = none := by
+          have hd' : s.db.insertContainer.1.frames = s.db.frames := rfl
+          unfold Db.insertFrame
+          rw [hd']
+          split
+          · rfl
+          · simp [hdup]
+        simp only [this, if_true]
+        refine ⟨?_, by first | rfl | trivial⟩
+        rw [begin_rollback' s _ hb]
+      | false =>
+        have hins : s.db.insertContainer.1.insertFrame s.db.insertContainer.2 hd.id nm.key nm.orig = some (withFrame s.db hd.id nm.key nm.orig) := by
+          have hne : (s.db.nextId == hd.id) = false := by simp; omega
+          have hc2 : (s.db.containers ++ [({ id := s.db.nextId, nextLoopNum := 0 } : ContainerRow)]).any (fun r => r.id == hd.id) = true := by
+            rw [List.any_append]
+            have : s.db.containers.any (fun r => r.id == hd.id) = true := hhd
+            simp [this]
+          unfold Db.insertFrame Db.insertContainer withFrame
+          simp [hcidfree, hdup, hne, Db.hasContainer, hc2, Db.insertContainer]
+        simp only [hins, Bool.false_eq_true, if_false]
+        refine ⟨?_, by first | rfl | trivial⟩
+        simp only [Store.commit, Store.autocommit, Option.isNone_some, Bool.false_and, Bool.false_eq_true, if_false, Option.getD]
+        rfl
+
+theorem hasItem_absS (d : Db) (hinv : Inv d) (cid : Nat) (k : Str) : (absS d).hasItem cid k = d.hasItem cid k := by
+  unfold AState.hasItem
+  show (d.loops.map (absALoop d)).any _ = _
+  rw [List.any_map]
+  apply Bool.eq_iff_iff.mpr
+  simp only [List.any_eq_true, Function.comp]
+  constructor
+  · rintro ⟨y, hy, hk⟩
+    simp only [Bool.and_eq_true] at hk
+    rw [hasItem_absALoop] at hk
+    obtain ⟨i, hi, hik⟩ := List.any_eq_true.mp hk.2
+    obtain ⟨him, hic⟩ := List.mem_filter.mp hi
+    have hyc : y.cid = cid := by simpa [absALoop] using hk.1
+    simp at hic hik
+    exact (hasItem_iff _ _ _).mpr ⟨i, him, by rw [hic.1, hyc], hik⟩
+  · intro hi
+    obtain ⟨i, him, hic, hik⟩ := (hasItem_iff _ _ _).mp hi
+    obtain ⟨y, hy, hyc, hyn⟩ := (hasLoop_iff _ _ _).mp (hinv.itemFK i him)
+    refine ⟨y, hy, ?_⟩
+    simp only [Bool.and_eq_true]
+    refine ⟨by simp [absALoop, hyc, hic], ?_⟩
+    rw [hasItem_absALoop]
+    exact List.any_eq_true.mpr ⟨i, List.mem_filter.mpr ⟨him, by simp [hyc, hyn]⟩, by simp [hik]⟩
+
+def Db.namesFresh (d : Db) (cid : Nat) : List Name → Bool
+  | [] => true
+  | n :: ns => !d.hasItem cid n.key && !ns.any (fun m => m.key == n.key) && namesFresh d cid ns
+
+theorem namesFresh_absS (d : Db) (hinv : Inv d) (cid : Nat) : ∀ ns, (absS d).namesFresh cid ns = d.namesFresh cid ns
+  | [] => rfl
+  | n :: ns => by unfold AState.namesFresh Db.namesFresh; rw [hasItem_absS d hinv, namesFresh_absS d hinv cid ns]
+
+theorem namesFresh_congr (d d' : Db) (cid : Nat) (hi : d'.items = d.items) : ∀ ns, d'.namesFresh cid ns = d.namesFresh cid ns
+  | [] => rfl
+  | n :: ns => by unfold Db.namesFresh; rw [namesFresh_congr d d' cid hi ns]; simp only [Db.hasItem, hi]
+
+theorem namesFresh_insert (d : Db) (cid : Nat) (key orig : Str) (ln : Nat) : ∀ ns,
+    Db.namesFresh { d with items := d.items ++ [{ cid := cid, name := key, nameOrig := orig, loopNum := ln }] } cid ns =
+      (d.namesFresh cid ns && !ns.any (fun m => m.key == key))
+  | [] => rfl
+  | n :: ns => by
+    unfold Db.namesFresh
+    rw [namesFresh_insert d cid key orig ln ns]
+    have ecomm : (key == n.key) = (n.key == key) := Bool.eq_iff_iff.mpr ⟨fun h => by rw [beq_iff_eq] at h ⊢; exact h.symm, fun h => by rw [beq_iff_eq] at h ⊢; exact h.symm⟩
+    have : Db.hasItem { d with items := d.items ++ [{ cid := cid, name := key, nameOrig := orig, loopNum := ln }] } cid n.key =
+        (d.hasItem cid n.key || n.key == key) := by
+      show (d.items ++ [({ cid := cid, name := key, nameOrig := orig, loopNum := ln } : ItemRow)]).any (fun i => i.cid == cid && i.name == n.key) = _
+      rw [List.any_append]
+      show (d.hasItem cid n.key || (([({ cid := cid, name := key, nameOrig := orig, loopNum := ln } : ItemRow)]).any (fun i => i.cid == cid && i.name == n.key))) = _
+      simp only [List.any_cons, List.any_nil, Bool.or_false, beq_self_eq_true, Bool.true_and, ecomm]
+    rw [this]
+    simp only [List.any_cons]
+    cases d.hasItem cid n.key <;> cases (n.key == key) <;> cases ns.any (fun m => m.key == n.key) <;> cases d.namesFresh cid ns <;>
+      cases ns.any (fun m => m.key == key) <;> rfl
+
+/-- the item loop of cif_container_create_loop: CIF_DUP_ITEMNAME exactly when a name is not new or occurs twice -/
+theorem addItems_code : ∀ (ns : List Name) (d : Db) (cid ln : Nat), d.hasLoop cid ln = true →
+    match addItems d cid ln ns with
+    | .ok _ => d.namesFresh cid ns = true
+    | .error c => c = CIF_DUP_ITEMNAME ∧ d.namesFresh cid ns = false
+  | [], d, cid, ln, _ => by simp [addItems, Db.namesFresh]
+  | n :: ns, d, cid, ln, hl => by
+    unfold addItems
+    cases hi : d.hasItem cid n.key with
+    | true =>
+      have : d.insertItem cid n.key n.orig ln = none := by unfold Db.insertItem; simp [hi]
+      rw [this]
+      simp [Db.namesFresh, hi]
+    | false =>
+      have : d.insertItem cid n.key n.orig ln = some { d with items := d.items ++ [{ cid := cid, name := n.key, nameOrig := n.orig, loopNum := ln }] } := by
+        unfold Db.insertItem; simp [hi, hl]
+      rw [this]
+      simp only []
+      have ih := addItems_code ns { d with items := d.items ++ [{ cid := cid, name := n.key, nameOrig := n.orig, loopNum := ln }] } cid ln hl
+      rw [namesFresh_insert] at ih
+      unfold Db.namesFresh
+      rw [hi]
+      simp only [Bool.not_false, Bool.true_and]
+      cases hr : addItems { d with items := d.items ++ [{ cid := cid, name := n.key, nameOrig := n.orig, loopNum := ln }] } cid ln ns with
+      | ok d2 =>
+        rw [hr] at ih; simp only [] at ih ⊢
+        simp only [Bool.and_eq_true] at ih ⊢
+        exact ⟨ih.2, ih.1⟩
+      | error c =>
+        rw [hr] at ih; simp only [] at ih ⊢
+        refine ⟨ih.1, ?_⟩
+        have := ih.2
+        cases h1 : d.namesFresh cid ns <;> cases h2 : ns.any (fun m => m.key == n.key) <;> simp [h1, h2] at this ⊢
+
+theorem container_unique : ∀ (l : List ContainerRow), l.Pairwise (fun a b => a.id ≠ b.id) → ∀ a ∈ l, ∀ b ∈ l, a.id = b.id → a = b
+  | [], _, a, ha, _, _, _ => nomatch ha
+  | x :: xs, hp, a, ha, b, hb, h1 => by
+    rw [List.pairwise_cons] at hp
+    rcases List.mem_cons.mp ha with rfl | ha' <;> rcases List.mem_cons.mp hb with rfl | hb'
+    · rfl
+    · exact absurd h1 (hp.1 b hb')
+    · exact absurd h1.symm (hp.1 a ha')
+    · exact container_unique xs hp.2 a ha' b hb' h1
+
+/-- CREATE_LOOP_SQL on an existing container fails exactly for a second scalar loop -/
+theorem insertLoop_code (d : Db) (cid : Nat) (cat : Option Str) (hinv : Inv d) (hc : d.hasContainer cid = true) :
+    match d.insertLoopUnnumbered cid cat with
+    | .error m => (cat == some [] && d.loops.any (fun l => l.cid == cid && l.category == some [])) = true ∧ m = msgDupScalar
+    | .ok _ => (cat == some [] && d.loops.any (fun l => l.cid == cid && l.category == some [])) = false := by
+  unfold Db.insertLoopUnnumbered
+  by_cases hsd : (cat == some [] && d.loops.any (fun l => l.cid == cid && l.category == some [])) = true
+  · simp only [hsd, if_true]; refine ⟨?_, ?_⟩ <;> first | rfl | trivial
+  · simp only [hsd, Bool.false_eq_true, if_false]
+    obtain ⟨c0, hc0, hc0id⟩ := (hasContainer_iff _ _).mp hc
+    cases hfc : d.containers.find? (fun c => c.id == cid) with
+    | none =>
+      have := List.find?_eq_none.mp hfc c0 hc0
+      simp [hc0id] at this
+    | some c =>
+      have hcm := List.mem_of_find?_eq_some hfc
+      have hcid : c.id = cid := by have := List.find?_some hfc; simpa using this
+      have hnoloop : d.hasLoop cid c.nextLoopNum = false := by
+        cases hh : d.hasLoop cid c.nextLoopNum with
+        | false => rfl
+        | true =>
+          obtain ⟨x, hx, hxc, hxn⟩ := (hasLoop_iff _ _ _).mp hh
+          have := hinv.ext.loopNumsBelow c hcm x hx (by rw [hxc, hcid])
+          omega
+      simp only [hnoloop, Bool.false_eq_true, if_false]
+      try simpa using hsd
+
+/-- the code of cif_container_create_loop_internal in terms of the tables -/
+theorem createLoopBody_code (cid : Nat) (cat : Option Str) (names : List Name) (d : Db) (hinv : Inv d) (hc : d.hasContainer cid = true) :
+    match createLoopBody cid cat names d with
+    | .ok _ => (cat == some [] && d.loops.any (fun l => l.cid == cid && l.category == some [])) = false ∧ d.namesFresh cid names = true
+    | .error c => ((cat == some [] && d.loops.any (fun l => l.cid == cid && l.category == some [])) = true ∧ c = CIF_RESERVED_LOOP) ∨
+        ((cat == some [] && d.loops.any (fun l => l.cid == cid && l.category == some [])) = false ∧ d.namesFresh cid names = false ∧ c = CIF_DUP_ITEMNAME) := by
+  have hic := insertLoop_code d cid cat hinv hc
+  unfold createLoopBody
+  cases hins : d.insertLoopUnnumbered cid cat with
+  | error m =>
+    rw [hins] at hic
+    simp only [] at hic ⊢
+    obtain ⟨h1, h2⟩ := hic
+    subst h2
+    have : (msgDupScalar == scalarErrmsg) = true := by decide
+    simp only [this, if_true]
+    first | exact Or.inl ⟨h1, rfl⟩ | exact Or.inl ⟨h1, trivial⟩
+  | ok d1 =>
+    rw [hins] at hic
+    simp only [] at hic ⊢
+    obtain ⟨c, hcm, hcid, hln, hfresh, l1, i1, _⟩ := insertLoop_maxLoopNum d d1 cid cat hinv hins
+    have hl : d1.hasLoop cid (d1.maxLoopNum cid) = true := by
+      rw [hln]
+      exact (hasLoop_iff _ _ _).mpr ⟨_, by rw [l1]; exact List.mem_append_right _ (List.mem_singleton.mpr rfl), rfl, rfl⟩
+    have hcode := addItems_code names d1 cid (d1.maxLoopNum cid) hl
+    rw [namesFresh_congr d d1 cid i1] at hcode
+    cases hadd : addItems d1 cid (d1.maxLoopNum cid) names with
+    | error c' => rw [hadd] at hcode; simp only [] at hcode ⊢; exact Or.inr ⟨hic, hcode.2, hcode.1⟩
+    | ok d2 => rw [hadd] at hcode; simp only [] at hcode ⊢; exact ⟨hic, hcode⟩
+
+/-- cif_container_create_loop on an existing container commutes with `absS` and returns the documented model's code -/
+theorem createLoop_spec (s : Store) (hd : CH) (cat : Option Str) (names : List Name) (hg : Good s.db) (hv : hd.validB s.db = true) :
+    absS (createLoop s hd cat names).1.db = (specCreateLoop (absS s.db) hd cat names).1 ∧
+    (createLoop s hd cat names).2 = (specCreateLoop (absS s.db) hd cat names).2 := by
+  have hinv := hg.inv
+  have hc : s.db.hasContainer hd.id = true := hv
+  unfold createLoop specCreateLoop
+  cases hne : names.isEmpty with
+  | true => simp
+  | false =>
+    simp only [Bool.false_eq_true, if_false]
+    cases hval : names.any (fun n => !n.valid) with
+    | true => simp
+    | false =>
+      simp only [Bool.false_eq_true, if_false]
+      have hres : (createLoopInternal s hd cat names).2 = (createLoopBody hd.id cat names s.db).map Prod.snd := nest_snd s _
+      have hscal : (absS s.db).loops.any (fun y => y.cid == hd.id && y.category == some []) =
+          s.db.loops.any (fun l => l.cid == hd.id && l.category == some []) := by
+        show (s.db.loops.map (absALoop s.db)).any _ = _
+        rw [List.any_map]; rfl
+      have hcont : (absS s.db).containers = s.db.containers := rfl
+      rw [hscal, hcont, namesFresh_absS s.db hinv]
+      obtain ⟨c0, hc0, hc0id⟩ := (hasContainer_iff _ _).mp hc
+      have hcode := createLoopBody_code hd.id cat names s.db hinv hc
+      cases hb : createLoopBody hd.id cat names s.db with
+      | error c =>
+        rw [hb] at hcode
+        simp only [] at hcode
+        have hcode2 : (createLoopInternal s hd cat names).2 = .error c := by rw [hres, hb]; rfl
+        have hdb : (createLoopInternal s hd cat names).1.db = s.db := (nest_error s _ _ hcode2).1
+        rcases hcode with ⟨h1, h2⟩ | ⟨h1, h2, h3⟩
+        · simp only [h1, if_true]
+          exact ⟨by rw [hdb], by rw [hcode2, h2]⟩
+        · simp only [h1, Bool.false_eq_true, if_false, h2, Bool.not_false, if_true]
+          cases hfc : s.db.containers.find? (fun c => c.id == hd.id) with
+          | none =>
+            have := List.find?_eq_none.mp hfc c0 hc0
+            simp [hc0id] at this
+          | some cc => exact ⟨by rw [hdb], by rw [hcode2, h3]⟩
+      | ok r =>
+        obtain ⟨d2, l⟩ := r
+        rw [hb] at hcode
+        simp only [] at hcode
+        obtain ⟨h1, h2⟩ := hcode
+        simp only [h1, Bool.false_eq_true, if_false, h2, Bool.not_true]
+        have hcode2 : (createLoopInternal s hd cat names).2 = .ok l := by rw [hres, hb]; rfl
+        have hdb : (createLoopInternal s hd cat names).1.db = d2 := nest_db_ok s _ d2 l hb
+        -- the shape of the new state
+        unfold createLoopBody at hb
+        cases hins : s.db.insertLoopUnnumbered hd.id cat with
+        | error m => rw [hins] at hb; simp only [] at hb; split at hb <;> cases hb
+        | ok d1 =>
+          rw [hins] at hb
+          simp only [] at hb
+          obtain ⟨c, hcm, hcid, hln, hfresh, l1, i1, v1, f1, b1⟩ := insertLoop_maxLoopNum s.db d1 hd.id cat hinv hins
+          have hcon1 : d1.containers = s.db.containers.map (fun r => if r.id == hd.id then { r with nextLoopNum := r.nextLoopNum + 1 } else r) ∧
+              d1.nextId = s.db.nextId := by
+            unfold Db.insertLoopUnnumbered at hins
+            split at hins; · cases hins
+            split at hins; · cases hins
+            split at hins; · cases hins
+            cases hins; exact ⟨rfl, rfl⟩
+          have hfc : s.db.containers.find? (fun c => c.id == hd.id) = some c := by
+            cases hf : s.db.containers.find? (fun c => c.id == hd.id) with
+            | none =>
+              have := List.find?_eq_none.mp hf c hcm
+              simp [hcid] at this
+            | some c' =>
+              have hm' := List.mem_of_find?_eq_some hf
+              have hk' := List.find?_some hf
+              simp at hk'
+              rw [container_unique s.db.containers hinv.ext.containerPK c' hm' c hcm (by rw [hk', hcid])]
+          rw [hfc]
+          simp only []
+          cases hadd : addItems d1 hd.id (d1.maxLoopNum hd.id) names with
+          | error c' => rw [hadd] at hb; cases hb
+          | ok d2' =>
+            rw [hadd] at hb
+            simp only [Except.ok.injEq, Prod.mk.injEq] at hb
+            obtain ⟨hd2, hl'⟩ := hb
+            subst hd2
+            rw [hln] at hadd hl'
+            obtain ⟨i2, l2, v2, f2, b2, c2, hnew⟩ := addItems_spec names d1 d2' hd.id c.nextLoopNum hadd
+            rw [i1] at i2; rw [l1] at l2; rw [v1] at v2
+            have hnew' : ∀ n ∈ names, s.db.hasItem hd.id n.key = false := by
+              intro n hn; have := hnew n hn; simpa only [Db.hasItem, i1] using this
+            refine ⟨?_, by rw [hcode2, ← hl']⟩
+            rw [hdb]
+            -- old loops keep their items and their packets
+            have hold : ∀ x ∈ s.db.loops, absALoop d2' x = absALoop s.db x := by
+              intro x hx
+              have hit : d2'.loopItems x.cid x.loopNum = s.db.loopItems x.cid x.loopNum := by
+                unfold Db.loopItems
+                rw [i2, List.filter_append]
+                have : (names.map (fun n => ({ cid := hd.id, name := n.key, nameOrig := n.orig, loopNum := c.nextLoopNum } : ItemRow))).filter
+                    (fun i => i.cid == x.cid && i.loopNum == x.loopNum) = [] := by
+                  rw [List.filter_eq_nil_iff]
+                  intro i hi hk
+                  obtain ⟨n, _, rfl⟩ := List.mem_map.mp hi
+                  simp at hk
+                  have := (hasLoop_iff s.db _ _).mpr ⟨x, hx, hk.1.symm, hk.2.symm⟩
+                  rw [hfresh] at this; cases this
+                rw [this, List.append_nil]
+              unfold absALoop
+              rw [hit]
+              congr 1
+              simp only [absLoop, Db.loopRows, hit, v2]
+            -- the new loop: the given items, no packet
+            have hnewloop : absALoop d2' { cid := hd.id, loopNum := c.nextLoopNum, category := cat, lastRowNum := 0 } =
+                { cid := hd.id, num := c.nextLoopNum, category := cat, items := names.map (fun n => (n.key, n.orig)), packets := [] } := by
+              have hit : d2'.loopItems hd.id c.nextLoopNum = names.map (fun n => ({ cid := hd.id, name := n.key, nameOrig := n.orig, loopNum := c.nextLoopNum } : ItemRow)) := by
+                unfold Db.loopItems
+                rw [i2, List.filter_append]
+                have h0 : s.db.items.filter (fun i => i.cid == hd.id && i.loopNum == c.nextLoopNum) = [] := by
+                  rw [List.filter_eq_nil_iff]
+                  intro i hi hk
+                  simp at hk
+                  have := hinv.itemFK i hi
+                  rw [hk.1, hk.2, hfresh] at this; cases this
+                rw [h0, List.nil_append, List.filter_eq_self]
+                intro i hi
+                obtain ⟨n, _, rfl⟩ := List.mem_map.mp hi
+                simp
+              have hrows : d2'.loopRows hd.id c.nextLoopNum = [] := by
+                unfold Db.loopRows
+                rw [hit, v2]
+                have : s.db.values.filter (fun v => v.cid == hd.id && (names.map (fun n => ({ cid := hd.id, name := n.key, nameOrig := n.orig, loopNum := c.nextLoopNum } : ItemRow))).any (fun i => i.name == v.name)) = [] := by
+                  rw [List.filter_eq_nil_iff]
+                  intro v hvm hk
+                  simp only [Bool.and_eq_true, List.any_map, List.any_eq_true, Function.comp] at hk
+                  obtain ⟨hvc, n, hn, hnk⟩ := hk
+                  have h1' := hinv.valueFK v hvm
+                  have hvc' : v.cid = hd.id := by simpa using hvc
+                  have hnk' : n.key = v.name := by simpa using hnk
+                  rw [hvc', ← hnk', hnew' n hn] at h1'; cases h1'
+                rw [this]; rfl
+              unfold absALoop
+              simp only [hit, List.map_map]
+              congr 1
+              simp only [absLoop, hrows, List.map_nil]
+            show ({ containers := d2'.containers, blocks := d2'.blocks, frames := d2'.frames, nextId := d2'.nextId,
+                    loops := d2'.loops.map (absALoop d2') } : AState) = _
+            have hnx : d2'.nextId = s.db.nextId := by
+              have : ∀ (ns : List Name) (a b : Db) (c n : Nat), addItems a c n ns = .ok b → b.nextId = a.nextId := by
+                intro ns
+                induction ns with
+                | nil => intro a b c n h; simp [addItems] at h; subst h; rfl
+                | cons e es ih =>
+                  intro a b c n h
+                  unfold addItems at h
+                  split at h; · cases h
+                  rename_i a1 hins'
+                  have := ih a1 b c n h
+                  unfold Db.insertItem at hins'
+                  split at hins'; · cases hins'
+                  split at hins'; · cases hins'
+                  cases hins'; exact this
+              rw [this names d1 d2' _ _ hadd, hcon1.2]
+            rw [c2, hcon1.1, b2, b1, f2, f1, hnx, l2, List.map_append, List.map_cons, List.map_nil, hnewloop]
+            have : s.db.loops.map (absALoop d2') = s.db.loops.map (absALoop s.db) := List.map_congr_left hold
+            rw [this]
+            rfl
+
+theorem setAllValues_tables (d : Db) (cid : Nat) (k : Str) (v : V) :
+    (d.setAllValues cid k v).1.items = d.items ∧ (d.setAllValues cid k v).1.loops = d.loops ∧
+    (d.setAllValues cid k v).1.containers = d.containers ∧ (d.setAllValues cid k v).1.nextId = d.nextId := by
+  unfold Db.setAllValues; split <;> exact ⟨rfl, rfl, rfl, rfl⟩
+
+/-- cif_loop_add_item through a valid handle commutes with `absS` and returns the documented model's code -/
+theorem addItem_spec (s : Store) (l : LH) (n : Option Name) (v : Option V) (hg : Good s.db) (hv : l.validB s.db = true) :
+    absS (addItem s l n v).1.db = (specAddItem (absS s.db) l n v).1 ∧ (addItem s l n v).2 = (specAddItem (absS s.db) l n v).2 := by
+  have hinv := hg.inv
+  obtain ⟨x, hx, k1, k2, _⟩ := LH.valid_of_validB hv
+  unfold addItem specAddItem
+  cases n with
+  | none => exact ⟨rfl, rfl⟩
+  | some nm =>
+    simp only []
+    cases hval : nm.valid with
+    | false => simp
+    | true =>
+      simp only [Bool.not_true, Bool.false_eq_true, if_false]
+      rw [hasItem_absS s.db hinv]
+      have hres : (addItemInternal s l nm.key nm.orig (v.getD .unk)).2 = (addItemBody l nm.key nm.orig (v.getD .unk) s.db).map Prod.snd := nest_snd s _
+      have hloop : s.db.hasLoop l.cid l.loopNum = true := (hasLoop_iff _ _ _).mpr ⟨x, hx, k1, k2⟩
+      cases hi : s.db.hasItem l.cid nm.key with
+      | true =>
+        simp only [if_true]
+        have hbody : addItemBody l nm.key nm.orig (v.getD .unk) s.db = .error CIF_DUP_ITEMNAME := by
+          unfold addItemBody Db.insertItem; simp [hi]
+        have hcode : (addItemInternal s l nm.key nm.orig (v.getD .unk)).2 = .error CIF_DUP_ITEMNAME := by rw [hres, hbody]; rfl
+        have hdb : (addItemInternal s l nm.key nm.orig (v.getD .unk)).1.db = s.db := (nest_error s _ _ hcode).1
+        cases hr : addItemInternal s l nm.key nm.orig (v.getD .unk) with
+        | mk s1 r =>
+          rw [hr] at hcode hdb
+          simp only [] at hcode hdb
+          subst hcode
+          exact ⟨by rw [hdb], rfl⟩
+      | false =>
+        simp only [Bool.false_eq_true, if_false]
+        have hins : s.db.insertItem l.cid nm.key nm.orig l.loopNum =
+            some { s.db with items := s.db.items ++ [{ cid := l.cid, name := nm.key, nameOrig := nm.orig, loopNum := l.loopNum }] } := by
+          unfold Db.insertItem; simp [hi, hloop]
+        have hbody : ∃ d' k, addItemBody l nm.key nm.orig (v.getD .unk) s.db = .ok (d', k) ∧
+            d'.items = s.db.items ++ [{ cid := l.cid, name := nm.key, nameOrig := nm.orig, loopNum := l.loopNum }] ∧
+            d'.containers = s.db.containers ∧ d'.nextId = s.db.nextId := by
+          unfold addItemBody
+          rw [hins]
+          obtain ⟨a, _, c, d⟩ := setAllValues_tables { s.db with items := s.db.items ++ [{ cid := l.cid, name := nm.key, nameOrig := nm.orig, loopNum := l.loopNum }] } l.cid nm.key (v.getD .unk)
+          exact ⟨_, _, rfl, a, c, d⟩
+        obtain ⟨d', k, hb, hit, hcon, hnx⟩ := hbody
+        have hcode : (addItemInternal s l nm.key nm.orig (v.getD .unk)).2 = .ok k := by rw [hres, hb]; rfl
+        have hdb : (addItemInternal s l nm.key nm.orig (v.getD .unk)).1.db = d' := nest_db_ok s _ d' k hb
+        obtain ⟨htar, hoth, hl, hf, hbk⟩ := addItem_refines s.db d' l nm.key nm.orig (v.getD .unk) k x hinv hx ⟨k1, k2⟩ hb
+        cases hr : addItemInternal s l nm.key nm.orig (v.getD .unk) with
+        | mk s1 r =>
+          rw [hr] at hcode hdb
+          simp only [] at hcode hdb
+          subst hcode
+          simp only []
+          refine ⟨?_, by first | rfl | trivial⟩
+          rw [hdb]
+          have hloops := absS_loops_map s.db d' id
+            (fun y => if y.cid == l.cid && y.num == l.loopNum then { y with items := y.items ++ [(nm.key, nm.orig)], packets := y.packets.map (· ++ [v.getD .unk]) } else y)
+            (by rw [hl, List.map_id])
+            (by
+              intro y hy
+              simp only [id]
+              by_cases hm : (y.cid == l.cid && y.loopNum == l.loopNum) = true
+              · have hm' : ((absALoop s.db y).cid == l.cid && (absALoop s.db y).num == l.loopNum) = true := hm
+                simp only [hm', if_true]
+                have hmk : y.cid = l.cid ∧ y.loopNum = l.loopNum := by simpa using hm
+                have : y = x := loopKey_unique s.db.loops hinv.loopPK y hy x hx (by rw [hmk.1, k1]) (by rw [hmk.2, k2])
+                subst this
+                have hitems : d'.loopItems y.cid y.loopNum = s.db.loopItems y.cid y.loopNum ++ [{ cid := l.cid, name := nm.key, nameOrig := nm.orig, loopNum := l.loopNum }] := by
+                  unfold Db.loopItems
+                  rw [hit, List.filter_append]
+                  congr 1
+                  simp [hmk.1, hmk.2]
+                unfold absALoop
+                rw [hitems, htar]
+                simp only [List.map_append, List.map_cons, List.map_nil]
+                try rfl
+              · have hm' : ((absALoop s.db y).cid == l.cid && (absALoop s.db y).num == l.loopNum) = false := by
+                  show (y.cid == l.cid && y.loopNum == l.loopNum) = false
+                  simpa using hm
+                simp only [hm', Bool.false_eq_true, if_false]
+                have hitems : d'.loopItems y.cid y.loopNum = s.db.loopItems y.cid y.loopNum := by
+                  unfold Db.loopItems
+                  rw [hit, List.filter_append]
+                  have : ([({ cid := l.cid, name := nm.key, nameOrig := nm.orig, loopNum := l.loopNum } : ItemRow)]).filter (fun i => i.cid == y.cid && i.loopNum == y.loopNum) = [] := by
+                    rw [List.filter_eq_nil_iff]
+                    intro i hi' hk'
+                    simp at hi'; subst hi'
+                    simp at hk'
+                    apply hm
+                    simp [hk'.1, hk'.2]
+                  rw [this, List.append_nil]
+                unfold absALoop
+                rw [hitems, hoth y hy (fun ⟨e1, e2⟩ => hm (by simp [e1, e2, k1, k2]))])
+          show ({ containers := d'.containers, blocks := d'.blocks, frames := d'.frames, nextId := d'.nextId, loops := (absS d').loops } : AState) = _
+          rw [hloops, hcon, hnx, hf, hbk]
+          rfl
+
 -- ---- worlds ------------------------------------------------------------------------------------------------------------------------------
 
 open World in
@@ -734,6 +1250,80 @@ theorem specStep_refines (w : World) (op : Op) (h : WOk w) (hin : inContract w o
       show ({ cifs := _, chs := _, lhs := _, its := _ } : AWorld) = { cifs := _, chs := _, lhs := _, its := _ }
       congr 1
       exact (absW_setCif w e.cif _).symm
+  | mkBlock c n =>
+    simp only [specStep, step, liveC_absW]
+    cases hl : w.liveC c with
+    | none => rfl
+    | some s =>
+      have hb : w.cifBusy c = false := by
+        have : okC w c = true := hin
+        unfold okC at this; rw [hl] at this; simpa using this
+      have hg := (h.good.live hl).db
+      obtain ⟨h1, h2⟩ := createBlock_spec s n hg (h.autocommit hl hb)
+      simp only [Option.map_some]
+      rw [← h1, ← h2]
+      simp only [Option.some.injEq, Prod.mk.injEq, and_true]
+      show ({ cifs := _, chs := _, lhs := _, its := _ } : AWorld) = { cifs := _, chs := _, lhs := _, its := _ }
+      congr 1
+      exact (absW_setCif w c _).symm
+  | mkFrame hh n =>
+    simp only [specStep, step, liveH_absW]
+    cases hl : w.liveH hh with
+    | none => rfl
+    | some pr =>
+      obtain ⟨e, s⟩ := pr
+      have hin' : w.cifBusy e.cif = false ∧ e.h.validB s.db = true := by
+        have : okH w hh = true := hin
+        unfold okH at this; rw [hl] at this
+        simp only [Bool.and_eq_true, Bool.not_eq_true'] at this; exact this
+      have hg := (h.good.live (liveH_liveC hl)).db
+      obtain ⟨h1, h2⟩ := createFrame_spec s e.h n hg (h.autocommit (liveH_liveC hl) hin'.1) hin'.2
+      simp only [Option.map_some]
+      rw [← h1, ← h2]
+      simp only [Option.some.injEq, Prod.mk.injEq, and_true]
+      show ({ cifs := _, chs := _, lhs := _, its := _ } : AWorld) = { cifs := _, chs := _, lhs := _, its := _ }
+      congr 1
+      exact (absW_setCif w e.cif _).symm
+  | mkLoop hh cat names =>
+    simp only [specStep, step, liveH_absW]
+    cases hl : w.liveH hh with
+    | none => rfl
+    | some pr =>
+      obtain ⟨e, s⟩ := pr
+      have hin' : w.cifBusy e.cif = false ∧ e.h.validB s.db = true := by
+        have : okH w hh = true := hin
+        unfold okH at this; rw [hl] at this
+        simp only [Bool.and_eq_true, Bool.not_eq_true'] at this; exact this
+      have hg := (h.good.live (liveH_liveC hl)).db
+      obtain ⟨h1, h2⟩ := createLoop_spec s e.h cat names hg hin'.2
+      simp only [Option.map_some]
+      rw [← h1, ← h2]
+      simp only [Option.some.injEq, Prod.mk.injEq, and_true]
+      show ({ cifs := _, chs := _, lhs := _, its := _ } : AWorld) = { cifs := _, chs := _, lhs := _, its := _ }
+      congr 1
+      exact (absW_setCif w e.cif _).symm
+  | addItem l n v =>
+    simp only [specStep, step, liveL_absW]
+    cases hl : w.liveL l with
+    | none => rfl
+    | some pr =>
+      obtain ⟨e, s⟩ := pr
+      have hv : e.h.validB s.db = true := by
+        have : okL w l = true := hin
+        unfold okL at this; rw [hl] at this
+        simp only [Bool.and_eq_true] at this; exact this.2
+      have hg := (h.good.live (liveL_liveC hl)).db
+      simp only [Option.map_some]
+      cases n with
+      | none => rfl
+      | some nm =>
+        obtain ⟨h1, h2⟩ := addItem_spec s e.h (some nm) v hg hv
+        simp only []
+        rw [← h1, ← h2]
+        simp only [Option.some.injEq, Prod.mk.injEq, and_true]
+        show ({ cifs := _, chs := _, lhs := _, its := _ } : AWorld) = { cifs := _, chs := _, lhs := _, its := _ }
+        congr 1
+        exact (absW_setCif w e.cif _).symm
   | _ => cases hc
 
 end CifModel.Store
